@@ -176,7 +176,9 @@ def run_jops(rng, dbs, nops):
     kinds = {}
 
     def op(name, c, a=0, b=0, k=0):
-        ops.append((c, a, b, k))
+        if not (-1 <= a < 11 and -1 <= b < 11 and 0 <= k < 8):
+            raise core.CheckError("jop argument out of the encodable range")
+        ops.append(((c * 12 + (a + 1)) * 12 + (b + 1)) * 8 + k)
         names.append("%s %d %d %d" % (name, a, b, k))
         kinds[name] = kinds.get(name, 0) + 1
 
@@ -251,7 +253,7 @@ def run_jops(rng, dbs, nops):
     rows, dops = dump(path)
     out += enc_db(rows, dops) + enc_journal(state["j"])
     dbs.drop(path)
-    flat = [len(ops)] + [x for o in ops for x in o] + out
+    flat = [len(ops)] + ops + out
     return "jops_case %s" % core.gzlist(flat), dict(ops=names, out=out), kinds
 
 
@@ -303,11 +305,32 @@ class Prog:
 
 
 def flat_table(prog, hists):
+    """one entry per history, parents before children: [parent index + 1 | 0, last + 1, n pending, pending..., 16*tmo+fid]"""
     out = [len(hists)]
-    for h in hists:
+    index = {}
+    for i, h in enumerate(hists):
         pend, tmo, fid = prog(h)
-        out += [len(h)] + list(h) + [len(pend)] + list(pend) + [1 if tmo else 0, fid]
+        if not (0 <= fid < 16):
+            raise core.CheckError("function id out of the encodable range")
+        if h:
+            if h[:-1] not in index:
+                raise core.CheckError("history table is not prefix-closed")
+            out += [index[h[:-1]] + 1, h[-1] + 1]
+        else:
+            out += [0, 0]
+        out += [len(pend)] + list(pend) + [(16 if tmo else 0) + fid]
+        index[h] = i
     return out
+
+
+def flat_db(rows, ops):
+    for r, s_, k in rows:
+        if not (0 <= s_ < 64 and 0 <= k < 64 and r >= 0):
+            raise core.CheckError("journal row out of the encodable range: %r" % ((r, s_, k),))
+    for r, f in ops:
+        if not (0 <= f < 16 and r >= 0):
+            raise core.CheckError("operation row out of the encodable range: %r" % ((r, f),))
+    return [len(rows)] + [r * 4096 + s_ * 64 + k for r, s_, k in rows] + [len(ops)] + [r * 16 + f for r, f in ops]
 
 
 # ------------------------------------------------------------------ the loop around the real adapter
@@ -522,7 +545,7 @@ def flat_run(rows, ops, rec):
     h = (0, 0, 0)
     for n, obs, *_ in rec["snaps"]:
         h = zhash(h, obs)
-    return enc_db(rows, ops) + [1 if 0 in marks else 0, len(evs)] + evs + [zfin(h)]
+    return flat_db(rows, ops) + [1 if 0 in marks else 0, len(evs)] + evs + [zfin(h)]
 
 
 def hists_of(rec):
@@ -547,7 +570,7 @@ def loop_case(prog, runs):
 def diag_terms(prog, rows, ops, rec):
     """Coq terms giving the model's observable state at each snapshot of one run (for a disagreement report)"""
     tl = core.gzlist(flat_table(prog, hists_of(rec)))
-    dl = core.gzlist(enc_db(rows, ops))
+    dl = core.gzlist(flat_db(rows, ops))
     last = rec["snaps"][-1][0]
     evs = core.gzlist([ev_code(e, False) for e in rec["events"][:last]])
     return ["loop_obs_at %s %s %s %d" % (tl, dl, evs, n) for n, *_ in rec["snaps"]]
@@ -563,10 +586,10 @@ def journal_keys(rows):
 def monitor_pair(prog, J, prev_hist, start_rows, start_ops, rec, wf, prev_ok):
     """The property's statement on the real outputs of one recovered run.
     J: journal of the run in the database the process started from; prev_hist: the result history of the process
-    that wrote it (None for the very first run).  Returns (in_domain, [(finding_key | None, text)])."""
+    that wrote it (None for the very first run).  Returns (in_domain, in_domain_and_holds, [(finding_key | None, text)])."""
     out = []
     if not rec["snaps"]:
-        return False, out
+        return False, False, out
     _, obs, h2, _, (rows, ops) = rec["snaps"][-1]
     h2 = list(h2)
     n = len(J)
@@ -615,7 +638,7 @@ def monitor_pair(prog, J, prev_hist, start_rows, start_ops, rec, wf, prev_ok):
             exp_ops = [(r, f) for r, f in start_ops if not (r == 0 and f > fid)]
         if list(ops) != exp_ops:
             out.append((None, "operation_outputs after recovery %s, expected %s" % (ops, exp_ops)))
-    return in_domain and same_order and extends, out
+    return in_domain, in_domain and same_order and extends, out
 
 
 def obs_purged(rec):
@@ -652,14 +675,14 @@ def gen_base(seed, dbs, flavour):
         stats["nonfirst_pick"] += rec["nonfirst_pick"]
         stats["empty_returns"] += rec["empty_returns"]
         stats["dup_runs"] += 1 if rec["dupkeys"] else 0
-        ok, f = monitor_pair(prog, J, prev_hist, rows, ops, rec, wf, prev_ok)
+        dom, ok, f = monitor_pair(prog, J, prev_hist, rows, ops, rec, wf, prev_ok)
         for key, text in f:
             fails.append((key, text, dict(seed=seed, tag=tag, flavour=flavour, start_rows=rows, start_ops=ops,
                                           events=rec["events"], results=rec["snaps"][-1][2],
                                           keys={i: KEYS[i] for i in set(J) | {k for k in rec["snaps"][-1][2] if k >= 0}},
                                           prog={str(h): prog(h) for h in hists_of(rec)})))
-        if ok:
-            stats["in_domain"] += 1
+        stats["in_domain"] += 1 if dom else 0
+        if dom:
             h2 = rec["snaps"][-1][2]
             stats["replayed_entries"] += min(len(J), len(h2))
             if J and sum(1 for x in h2 if x >= 0) >= len(J):
